@@ -807,7 +807,7 @@ def check_exponential(ctx, r, n, negative=False):
             gu = [g for u in us for g in guard_us(u, 64)]
             lines.append(exp_line("exp", c, c[tag], gu))
             cases.append((c, tag, us, [f(int(u * GRID)) for u in us], law))
-    outs = leanio.run_driver("Discrete", lines)
+    outs = leanio.run_driver("Discrete", lines) if lines else []
     for (c, tag, us, impl, law), out in zip(cases, outs):
         parts = out.split(" | ")
         if not parts[0].startswith("ok"):
@@ -1374,7 +1374,101 @@ def check(ctx):
     check_binary(ctx, ctx.fork("binary"), ctx.budget(25, 300))
     check_geometric(ctx, ctx.fork("geometric"), ctx.budget(60, 1200))
     check_exponential(ctx, ctx.fork("exponential"), ctx.budget(150, 3000))
+    check_exponential(ctx, ctx.fork("negative-measure"), ctx.budget(20, 200), negative=True)
     check_bernoulli(ctx, ctx.fork("bernoulli"), ctx.budget(30, 300))
     check_paf(ctx, ctx.fork("paf"), ctx.budget(40, 500))
     check_categorical(ctx, ctx.fork("categorical"), ctx.budget(120, 2500))
     check_hierarchical(ctx, ctx.fork("hierarchical"), ctx.budget(60, 1000))
+
+
+# ------------------------------------------------------------------------------------------------------------------
+# replay / witnesses
+# ------------------------------------------------------------------------------------------------------------------
+def _unj(x):
+    from ..core import unjson_float
+    if isinstance(x, list):
+        return [_unj(y) for y in x]
+    if isinstance(x, dict):
+        return {k: _unj(v) for k, v in x.items()}
+    return unjson_float(x)
+
+
+def law_of(family, params, x):
+    """exact law of the running implementation for one input (used by replay and the witnesses)"""
+    p = params
+    if family == "Binary":
+        sc = Scripted(lambda rng: M.Binary(epsilon=p["epsilon"], value0=p["value0"], value1=p["value1"], random_state=rng))
+        return binary_law(sc, x)[0]
+    if family in ("Geometric", "GeometricTruncated", "GeometricFolded"):
+        v = {"Geometric": "p", "GeometricTruncated": "t", "GeometricFolded": "f"}[family]
+        sc = Scripted(build_geom(v, p["epsilon"], p["sensitivity"], p.get("lower"), p.get("upper")))
+        s = p["epsilon"] / p["sensitivity"] if p["sensitivity"] > 0 else None
+        return geom_full_law(sc, v, x, s, eta_div=16.0)[0]
+    if family == "Exponential":
+        c = dict(p)
+        b, cands = build_exp(c, x)
+        return exp_law(Scripted(b), cands)[0]
+    if family == "PermuteAndFlip":
+        with coin_interposed():
+            return enumerate_law(paf_run(p, x), 1e-13, 2000000)[0]
+    if family in ("ExponentialCategorical", "ExponentialHierarchical"):
+        if family == "ExponentialCategorical":
+            sc = Scripted(lambda rng: M.ExponentialCategorical(epsilon=p["epsilon"], utility_list=[list(t) for t in p["utility_list"]],
+                                                               random_state=rng))
+        else:
+            sc = Scripted(lambda rng: M.ExponentialHierarchical(epsilon=p["epsilon"], hierarchy=p["hierarchy"], random_state=rng))
+        law = Law()
+        law.add_segs(extract_steps(lambda k: sc.at(k, x), 0, GRID - 1))
+        return law
+    raise ValueError(family)
+
+
+def still_fails(d):
+    fam, p, x, xp, o, eps = d["family"], d["params"], d["x"], d["xp"], d["atom"], d["eps"]
+    if d.get("mode") == "atom":
+        v = {"Geometric": "p", "GeometricTruncated": "t"}[fam]
+        sc = Scripted(build_geom(v, p["epsilon"], p["sensitivity"], p.get("lower"), p.get("upper")))
+        a, b = geom_atom_mass(sc, x, o), geom_atom_mass(sc, xp, o)
+        return a >= MIN_MASS and a > exp_eps(eps) * (b + 6 * CELL + 2 * CUT_CELLS * CELL) * (1 + SLACK), a, b
+    la, lb = law_of(fam, p, x), law_of(fam, p, xp)
+    a, b = la.p(o), lb.p(o)
+    return a >= MIN_MASS and a - la.unc(o) > exp_eps(eps) * (b + lb.unc(o)) * (1 + SLACK), a, b
+
+
+def replay(ctx, data):
+    d = _unj(data["data"])
+    fails, a, b = still_fails(d)
+    print(f"replay: P[{d['atom']}|x]={a!r}  P[{d['atom']}|x']={b!r}  e^eps={exp_eps(d['eps'])!r}")
+    return bool(fails)
+
+
+ISCLOSE_WITNESS = {
+    "family": "ExponentialCategorical",
+    "params": {"epsilon": 0.5, "utility_list": [["A", "B", 1.0], ["A", "C", 1.0], ["B", "C", 0.99988]]},
+    "x": "A", "xp": "B", "atom": "A", "eps": 0.5,
+}
+
+
+def _wit_isclose(ctx):
+    fails, a, b = still_fails(ISCLOSE_WITNESS)
+    e = ISCLOSE_WITNESS["eps"]
+    return bool(fails), (f"ExponentialCategorical(epsilon={e}, utility_list={ISCLOSE_WITNESS['params']['utility_list']}): normalisers "
+                         f"differ by ~1e-5 relative, np.isclose declares the tree balanced and drops the factor 2: "
+                         f"P['A'|'A']/P['A'|'B'] = {a / b if b else INF:.8g} > e^eps = {math.exp(e):.8g} (excess {a / b / math.exp(e) - 1 if b else INF:.2e} > 1e-6)")
+
+
+NEGMEASURE_WITNESS = {
+    "family": "Exponential",
+    "params": {"epsilon": 1.0, "sensitivity": 1.0, "monotonic": False, "measure": [-1.0, 1.0, 1.0]},
+    "x": [0.0, 1.0, 0.0], "xp": [0.0, 0.0, 0.0], "atom": 1, "eps": 1.0,
+}
+
+
+def _wit_negmeasure(ctx):
+    fails, a, b = still_fails(NEGMEASURE_WITNESS)
+    return bool(fails), ("Exponential(epsilon=1, sensitivity=1, measure=[-1, 1, 1]) accepts the negative measure entry; the "
+                         f"cumulative probabilities are not monotone: utility [0,1,0] selects candidate 1 with probability {a:.6g}, "
+                         f"the neighbouring utility [0,0,0] with probability {b:.3g} (ratio unbounded, e^eps = e)")
+
+
+WITNESSES = {"C01:categorical:isclose-balanced": _wit_isclose, "C01:exponential:negative-measure": _wit_negmeasure}
